@@ -48,6 +48,13 @@ from oracles import grammar as GR  # noqa: E402
 N_RICH = len(SPAN_SOURCES)
 # plus one witness text per expanded production alternative of the grammar (all combinations of optional parts)
 SPAN_SOURCES = SPAN_SOURCES + tuple((e if e in ("value", "type") else "document_ts_fragvars", t) for e, t in GR.sentence_texts())
+# (appended) wrappers and brackets NESTED several deep: list types inside list types, lists in lists in objects, selection sets in selection sets
+SPAN_SOURCES = SPAN_SOURCES + (
+    ("type", "[[T!]]!"), ("type", "[[[T]!]]"), ("type", "[[[[T!]!]!]!]!"),
+    ("value", "[[1, [2, []]], [[[]]], {a: {b: {c: [[{d: 1}]]}}}]"),
+    ("document_ts_fragvars", "type O { f(a: [[Int!]!]! = [[1], []]): [[T]] g: [[[T!]]!] } input In { m: [[[In!]]] = [[[{m: []}]]] } directive @x(a: [[Int]]) on FIELD"),
+    ("document_ts_fragvars", "query ($m: [[Int]!]! = [[1], []]) { f(x: [[{a: [[1]]}]]) { g { h { i(y: [[$m]]) } } } } fragment F($v: [[T!]] = [[]]) on T { a { b { c } } }"),
+)
 
 
 def span_tokens(text):
